@@ -2,6 +2,7 @@ package main
 
 import (
 	"fmt"
+	"os"
 	"sort"
 	"strings"
 )
@@ -10,7 +11,7 @@ import (
 // CRASH.bounded (C03): everything that escapes from an exported entry point during the abstract
 // runs of all families (token strings through the parser and the calculator, strings through the
 // four tokenizers, templates, CSV tables, scanner scripts, symbol tables, character maps, quote
-// codecs, every operator / conversion / function cell, variants) is recorded by the machine itself:
+// codecs, every operator / conversion / function cell, variants; and every operator and default function through the calculator with its real operations on boundary values of every variant type) is recorded by the machine itself:
 // a panic that reaches the caller, or a (result, error) pair that is (nil, nil) or (value, error).
 // One obligation per entry point that was exercised.
 // ---------------------------------------------------------------------------------------------
@@ -41,6 +42,13 @@ func init() {
 			c.convxRun()
 			c.ownRun()
 			c.funcxRun()
+			c.crashFamily()
+			if os.Getenv("CRASHDEBUG") != "" {
+				fmt.Fprintln(os.Stderr, "crash family outcomes:", crashFamKinds)
+				for _, o := range crashFamOpaque {
+					fmt.Fprintln(os.Stderr, "  opaque:", o)
+				}
+			}
 			crashMu.Lock()
 			defer crashMu.Unlock()
 			var keys []string
@@ -80,3 +88,111 @@ func (c *Ctx) coverageSummary() (entered, total int, missing []string) {
 }
 
 var _ = strings.Join
+
+// crashFamily: the calculator with its default (real) operations and functions on every operator and
+// every default function over boundary values of every variant type; outcomes are not compared with
+// anything - the machine records what escapes (panic, (nil,nil), (value,error)).
+var crashFamMemo *simpleVerdict
+var crashFamKinds = map[string]int{}
+var crashFamOpaque []string
+
+func (c *Ctx) crashFamily() *simpleVerdict {
+	if crashFamMemo != nil {
+		return crashFamMemo
+	}
+	v := &simpleVerdict{}
+	crashFamMemo = v
+	h := c.newVxHarness("TypeUnsafeVariantOperations")
+	if h.fault != "" {
+		v.undec = h.fault
+		return v
+	}
+	m := h.m
+	cctor := c.MustFunc(pkgCalc, "", "NewExpressionCalculator")
+	ct := resultType(cctor)
+	vc := c.MustFunc("calculator/variables", "", "NewVariableCollection")
+	newVar := c.MustFunc("calculator/variables", "", "NewVariable")
+	type val struct {
+		name string
+		mk   func() mv
+	}
+	arr := func(ns ...int64) func() mv {
+		return func() mv {
+			var es []mv
+			for _, n := range ns {
+				es = append(es, h.variant("Integer", n))
+			}
+			r, _ := m.Call(c.MustFunc(pkgVariants, "", "VariantFromArray"), mSlice{es})
+			return r
+		}
+	}
+	vals := []val{
+		{"i0", func() mv { return h.variant("Integer", int64(0)) }}, {"im", func() mv { return h.variant("Integer", int64(-1)) }},
+		{"ibig", func() mv { return h.variant("Integer", int64(1)<<62) }}, {"l7", func() mv { return h.variant("Long", int64(7)) }},
+		{"f", func() mv { return h.variant("Float", float64(1.5)) }}, {"d0", func() mv { return h.variant("Double", float64(0)) }},
+		{"s", func() mv { return h.variant("String", lit("aж")) }}, {"e", func() mv { return h.variant("String", lit("")) }},
+		{"t", func() mv { return h.variant("Boolean", true) }}, {"n", func() mv { return h.variant("Null", nil) }},
+		{"ts", func() mv { return h.variant("TimeSpan", int64(1500)) }}, {"dt", func() mv { return h.variant("DateTime", "t0") }},
+		{"arr", arr(1, 2)}, {"emp", arr()}, {"obj", func() mv { return h.variant("Object", "o") }},
+	}
+	var exprs []string
+	for _, a := range vals {
+		for _, b := range vals {
+			for _, op := range gxBinaryLexemes {
+				if op == "LIKE" {
+					continue
+				}
+				exprs = append(exprs, a.name+" "+op+" "+b.name)
+			}
+			exprs = append(exprs, a.name+" [ "+b.name+" ]", a.name+" NOT IN "+b.name)
+		}
+		exprs = append(exprs, "- "+a.name, "NOT "+a.name, a.name+" IS NULL", a.name+" [ 5 ]", a.name+" [ - 1 ]", "1 / "+a.name, "1 << "+a.name)
+	}
+	var fnames []string
+	for n := range funcArityOracle {
+		fnames = append(fnames, n)
+	}
+	sort.Strings(fnames)
+	for _, f := range fnames {
+		exprs = append(exprs, f+" ( )")
+		for _, a := range vals {
+			exprs = append(exprs, f+" ( "+a.name+" )", f+" ( "+a.name+" , s )", f+" ( i0 , "+a.name+" , arr )")
+		}
+	}
+	calc, out := m.Call(cctor)
+	if out.kind != "ok" {
+		v.undec = "NewExpressionCalculator: " + out.why
+		return v
+	}
+	newTok := c.MustFunc("tokenizers", "", "NewToken")
+	ttype := map[string]int64{}
+	for _, n := range []string{"Word", "Keyword", "Symbol", "Integer"} {
+		ttype[n], _ = c.constByName("tokenizers", n)
+	}
+	for _, e := range exprs {
+		m.steps = 0
+		v.runs++
+		vars, _ := m.Call(vc)
+		for _, a := range vals {
+			vr, _ := m.Call(newVar, a.name, a.mk())
+			callM(c, m, resultType(vc), "Add", vars, mIface{t: resultType(newVar), v: vr})
+		}
+		var toks []mv
+		for i, l := range lexemes(e) {
+			t, _ := m.Call(newTok, ttype[l.typ], l.text, int64(1), int64(i+1))
+			toks = append(toks, t)
+		}
+		if _, out := callM(c, m, ct, "SetOriginalTokens", calc, mSlice{toks}); out.kind == "opaque" {
+			continue
+		}
+		_, eo := callM(c, m, ct, "EvaluateUsingVariables", calc, mIface{t: resultType(vc), v: vars})
+		crashFamKinds[eo.kind]++
+		if eo.kind == "opaque" && len(crashFamOpaque) < 12 {
+			crashFamOpaque = append(crashFamOpaque, e+": "+eo.why)
+		}
+		if v.runs%97 == 0 {
+			noteSample("CRASH.bounded/evaluate-with-default-operations", e)
+		}
+	}
+	return v
+}
